@@ -94,7 +94,9 @@ def run_resolve_case(ctx, suite, case, oracle=None, compare=True):
         # (re-keyed templates only where the oracle does not speak in the reader's template keys / atom names)
         case['ctor'] = 'graph' if r in (0, 1) else 'fragment-dicts' if r in (2, 3) else \
             'reordered' if (r == 4 and ctx.prop in ('C02', 'C12')) else \
-            'graph-reinserted' if (r in (5, 6) and ctx.prop in ('C12', 'C03', 'C02')) else 'string'
+            'graph-reinserted' if (r in (5, 6) and (ctx.prop in ('C12', 'C02') or
+                                                     (ctx.prop == 'C03' and case.get('unique_labels') and case.get('legacy', True)))) \
+            else 'string'
     ctx.feature('constructor:' + case.get('ctor', 'string'))
     try:
         try:
